@@ -220,6 +220,9 @@ def lin_parts(t):
     if t[0] == 'un' and t[1] == 'USub':
         a, ca = lin_parts(t[2])
         return [(-s_, x) for s_, x in a], -ca
+    if t[0] == 'bin' and t[1] == 'Mult' and C(-1) in (t[2], t[3]):
+        a, ca = lin_parts(t[3] if t[2] == C(-1) else t[2])
+        return [(-s_, x) for s_, x in a], -ca
     return [(1, t)], 0
 
 
@@ -561,6 +564,14 @@ def step(t):
             # sep.join(str(v(i)) for i in range(N))  ==  sep.join(array)
             return ('sjoin', sep, ('array', ch[0][0][3][2][0], ch[0][0], inner))
         return None
+    if k == 'sjoin':
+        ge = group_elem(t[2])
+        if ge is not None and is_str_valued(ge[2]):
+            # sep.join(GROUPS[j]) with GROUPS filled by appending string pieces: the pieces of j, in order
+            ch2, key, val, j = ge
+            ch3 = ch2[:-1] + ((ch2[-1][0], AND(ch2[-1][1], CMP('Eq', key, j))),)
+            return ('fstr', (('srep', ch3, val if val[0] == 'fstr' else ('fstr', (val,)), t[1]),))
+        return None
     if k == 'max0':
         nc = norm_chain(t[1], t[2])
         if nc is not None:
@@ -630,6 +641,12 @@ def step(t):
         if f == S('abs') and len(args) == 1 and args[0][0] == 'bin' and args[0][1] == 'Sub':
             a, b = args[0][2], args[0][3]
             return ('max2', BIN('Sub', a, b), BIN('Sub', b, a))
+        if f == S('abs') and len(args) == 1 and args[0][0] == 'bin' and args[0][1] in ('Add', 'Mult'):
+            atoms, c_ = lin_parts(args[0])
+            pos = [x for s_, x in atoms if s_ > 0]
+            neg = [x for s_, x in atoms if s_ < 0]
+            if c_ == 0 and len(pos) == 1 and len(neg) == 1:
+                return ('max2', BIN('Sub', pos[0], neg[0]), BIN('Sub', neg[0], pos[0]))
         if f == S('max') and len(args) == 2 and not kw:
             return ('max2', args[0], args[1])
         if f == S('getattr') and len(args) == 3 and args[1][0] == 'const' and isinstance(args[1][1], str) and not kw:
